@@ -1,15 +1,18 @@
 import Revm.Util.Hex
 import Revm.Model.Interp
+import Revm.Model.InterpWf
 /-! Line-protocol driver of component `interp` (C25): per-instruction lockstep with the real
 `revm::interpreter::Interpreter`, and whole runs.
 
 * `begin interp <spec> <gas> <static> <code> <input> <target> <caller> <value> <env>` → `ok len=<code buffer len> pc=0`
   `<env>` = `chainid,coinbase,timestamp,number,difficulty,prevrandao|-,gaslimit,basefee,gasprice,prio|-,origin,h1+h2..|-,blobgasprice|-,limit|-` (hex)
-* `begin eof <spec> <gas> <static> <sections s1+s2..> <types i.o.m+..> <data> <datasize> <input> <target> <caller> <value> <env>`: EOF mode
+* `begin eof <spec> <gas> <static> <sections s1+s2..> <types i.o.m+..> <data> <datasize> <containers c1+c2..|-> <init 0|1> <input> <target> <caller> <value> <env>`: EOF mode
   (replies then end with ` fs=<return stack len>:<current section> cl=<section len>`)
 * `i s <tag> <resp>` one instruction (`<tag>` = case.step, ignored); `<resp>` = `-` or `ok:word:bytes:cold:orig:pres:new:flags:deleg` (the scripted host answer)
 * `i ret <tag> <result>:<gas remaining>:<refunded>:<output>:<address|->` re-entry of a child result after an action
 * `i dump <tag>` full digests
+* `i wf <tag> <v>` EOF mode; `<v>` = verdict of the real `validate_eof_inner` on the container → `wfok v=<v>`, or `wf-gap v=1`
+  when the validator accepted a container that `wfCtxB` (hypothesis of the EOF theorems) rejects
   reply of `s`/`ret`: `pc= r= g= rf= n= top= sd= ms= md= rd=` [` h=<host call>`] [` act=<action>`] [` out=<len>:<digest>`],
   `panic` for a modelled Rust panic, `oob-code|oob-stack|oob-memory` for a modelled out-of-buffer access
 * `interp run <spec> <gas> <static> <code> <input> <target> <caller> <value> <env> <hostq> <childq> <keccakq>`
@@ -83,20 +86,20 @@ def parseType (t : String) : Option (Nat × Nat × Nat) :=
     | _, _, _ => none
   | _ => none
 
-/-- `begin eof <spec> <gas> <static> <sections> <types> <data> <datasize> <input> <target> <caller> <value> <env>` -/
+/-- `begin eof <spec> <gas> <static> <sections> <types> <data> <datasize> <containers> <init> <input> <target> <caller> <value> <env>` -/
 def parseInitEof (toks : List String) : Option IState :=
   match toks with
-  | [spec, gas, static, secs, types, data, dsize, input, target, caller, value, env] =>
+  | [spec, gas, static, secs, types, data, dsize, conts, init, input, target, caller, value, env] =>
     match spec.toNat?, gas.toNat?, parseBool? static, parseList "+" parseBytes? secs, parseList "+" parseType types,
-          parseBytes? data, dsize.toNat?, parseBytes? input, parseHex? target, parseHex? caller, parseHex? value,
-          parseEnv env with
-    | some spec, some gas, some static, some secs, some types, some data, some dsize, some input, some target,
-      some caller, some value, some env =>
+          parseBytes? data, dsize.toNat?, parseList "+" parseBytes? conts, parseBool? init, parseBytes? input,
+          parseHex? target, parseHex? caller, parseHex? value, parseEnv env with
+    | some spec, some gas, some static, some secs, some types, some data, some dsize, some conts, some init,
+      some input, some target, some caller, some value, some env =>
       if gas < U64 ∧ secs ≠ [] then
-        some (IState.initEof { sections := secs, types := types, data := data, dataSize := dsize }
-          input gas static (GasCalc.canon spec) target caller value env)
+        some (IState.initEof { sections := secs, types := types, data := data, dataSize := dsize, containers := conts }
+          input gas static (GasCalc.canon spec) target caller value env Memory.new init)
       else none
-    | _, _, _, _, _, _, _, _, _, _, _, _ => none
+    | _, _, _, _, _, _, _, _, _, _, _, _, _, _ => none
   | _ => none
 
 def parseResp (tok : String) : Option HostResp :=
@@ -143,12 +146,15 @@ def hostStr : HostOp → Option String
   | .log a ts d => some s!"log:{toHex a}:{if ts.isEmpty then "-" else "+".intercalate (ts.map toHex)}:{lenDig d}"
   | .selfdestruct a t => some s!"selfdestruct:{toHex a}:{toHex t}"
   | .loadAccountDelegated a => some s!"load:{toHex a}"
+  | .create2Address _ _ _ => none
 
 def actionStr : Action → String
   | .call i =>
     s!"call:{i.scheme.name}:{i.gasLimit}:{toHex i.bytecodeAddress}:{toHex i.targetAddress}:{toHex i.caller}:{if i.valueTransfer then "T" else "A"}:{toHex i.value}:{boolStr i.isStatic}:{boolStr i.isEof}:{i.retStart}:{i.retEnd}:{lenDig i.input}"
   | .create i =>
     s!"create:{toHex i.caller}:{match i.salt with | some x => toHex x | none => "-"}:{toHex i.value}:{i.gasLimit}:{lenDig i.initCode}"
+  | .eofCreate i =>
+    s!"eofcreate:{toHex i.caller}:{toHex i.createdAddress}:{toHex i.value}:{i.gasLimit}:{lenDig i.container}:{lenDig i.input}"
 
 def ctxOf (s : IState) : List Nat := s.mem.buffer.drop s.mem.lastCheckpoint
 
@@ -179,7 +185,7 @@ def doneReply (d : Done) (hs : String) : St × String :=
     if s.pc ≥ s.code.length then ({}, "oob-code") else
     ({ s := some s, pending := some a }, stateStr .CallOrCreate s ++ hs ++ s!" act={actionStr a}")
   | .halt r out s =>
-    ({ s := some s }, stateStr r s ++ hs ++ (if r = .Return ∨ r = .Revert then s!" out={lenDig out}" else ""))
+    ({ s := some s }, stateStr r s ++ hs ++ (if r = .Return ∨ r = .Revert ∨ r = .ReturnContract then s!" out={lenDig out}" else ""))
   | .fault f => ({}, faultReply f)
 
 def begin (toks : List String) : St × String :=
@@ -211,6 +217,13 @@ def handle (st : St) (toks : List String) : St × String :=
        | .halt r _ s' => ({ s := some s' }, stateStr r s')
        | .fault f => ({}, faultReply f))
     | _, _ => (st, "bad-op")
+  | ["wf", _tag, v], some s =>
+    -- `<v>`: did the real validator accept the container? then the well-formedness predicate of the proofs
+    -- (`wfCtxB`, the hypothesis of the EOF theorems of C25) has to hold
+    (match s.eof, parseBool? v with
+     | some c, some v =>
+       if v && !wfCtxB c then (st, "wf-gap v=1") else (st, s!"wfok v={if v then 1 else 0}")
+     | _, _ => (st, "bad-op"))
   | ["dump", _tag], some s =>
     (st, s!"stack={toHex (digestWords s.stack)} mem={lenDig (ctxOf s)} rd={lenDig s.returnData}")
   | _, _ => (st, "bad-op")
